@@ -6,6 +6,7 @@ use crate::hist::{HistCfg, HistSystem};
 
 pub mod c01;
 pub mod hist_props;
+pub mod format_props;
 pub mod replay;
 pub mod txn_props;
 
@@ -20,6 +21,9 @@ pub fn run(id: &str, tier: Tier) -> i32 {
         "C06" => txn_props::c06(tier),
         "C07" => txn_props::c07(tier),
         "C19" => txn_props::c19(tier),
+        "C18" => txn_props::c18(tier),
+        "C16" => format_props::c16(tier),
+        "C17" => format_props::c17(tier),
         other => {
             println!("MACHINERY-ERROR unknown property {other}");
             2
